@@ -147,7 +147,9 @@ func (obj *Package) Use(pkg *Package) {
 		}
 		for name, vv := range pkg.vars {
 			if vv.Export {
-				obj.vars[name] = vv
+				if _, has := obj.vars[name]; !has {
+					obj.vars[name] = vv
+				}
 			}
 		}
 		if obj.funcs == nil {
@@ -155,7 +157,9 @@ func (obj *Package) Use(pkg *Package) {
 		}
 		for name, fi := range pkg.funcs {
 			if fi.Export {
-				obj.funcs[name] = fi
+				if _, has := obj.funcs[name]; !has {
+					obj.funcs[name] = fi
+				}
 			}
 		}
 		if obj.classes == nil {
